@@ -365,7 +365,7 @@ func unitC18ctx(e common.Env, p *common.Part) {
 }
 
 func unitC18dkg(e common.Env, p *common.Part) {
-	p.Rule = "(ii) directly wired BLS and PS key generations in which exactly one party p (every p in turn) ends up with sk_p+delta (delta added to a share it receives, so that its commitment and reveal are consistent; PS: on x and on each y_j): for t<n every party must return an error, for t=n (any n keys lie on one polynomial of degree n-1) and for delta=0 every party must accept; party identifier sets 1..n, with a gap, offset (11..) and 16-bit multiples of 257 ending at 65535 in turn; distinct key = (scheme, n, t, position, scalar); non-trivial always"
+	p.Rule = "(ii) directly wired BLS and PS key generations in which exactly one party p (every p in turn) ends up with sk_p+delta (delta added to a share it receives, so that its commitment and reveal are consistent; PS: on x and on each y_j): for t<n every party must return an error, for t=n (any n keys lie on one polynomial of degree n-1) and for delta=0 every party must accept; party identifier sets 1..n, with a gap, offset (11..) and 16-bit multiples of 257 ending at 65535 in turn; plus, at every position and t<n, a party that commits to and reveals a valid key off the polynomial and then reveals its genuine key as well (every honest party must refuse); distinct key = (scheme, n, t, position, scalar); non-trivial always"
 	type job struct {
 		sch    scheme
 		n, t   int
@@ -393,6 +393,44 @@ func unitC18dkg(e common.Env, p *common.Part) {
 				}
 			}
 			jobs = append(jobs, job{scheme{Name: "ps", MsgLen: 1}, n, t, 1, -1, 0})
+		}
+	}
+	// the off-polynomial key reaches the others by a detour: the party commits to and reveals a valid key that is off the polynomial
+	// and then reveals its genuine key as well (the strategy of C05's catalogue; every position, t < n)
+	{
+		k := 0
+		for _, sch := range []scheme{{Name: "bls"}, {Name: "ps", MsgLen: 1}} {
+			for n := 3; n <= e.Pick(4, 5); n++ {
+				for t := 2; t < n; t++ {
+					for byz := 1; byz <= n; byz++ {
+						k++
+						if !e.Mine(10000+k) || p.ViolationCount() >= 3 {
+							continue
+						}
+						var honest []uint16
+						for i := 1; i <= n; i++ {
+							if i != byz {
+								honest = append(honest, uint16(i))
+							}
+						}
+						cs := c05case{Sch: sch, N: n, T: t, Byz: uint16(byz), Strategy: "off-polynomial-key-committed-and-revealed-then-the-genuine-key", Victims: honest, Which: -1}
+						p.Begin(cs.String())
+						rng := e.Rng("c18detour", k)
+						r := runC05(cs, rng)
+						p.Case(cs.String(), r.effected)
+						p.Count("dkg_runs", 1)
+						if r.effected {
+							p.Count("detour_cases", 1)
+						}
+						if !r.selfOK {
+							continue
+						}
+						if sig, what := c05oracle(cs, r, rng); sig != "" {
+							p.Violate(sig+"/"+sch.Name+"/revealed-twice", cs.String()+": "+what, map[string]interface{}{"scheme": sch.Name, "n": n, "t": t, "party": byz})
+						}
+					}
+				}
+			}
 		}
 	}
 	for i, j := range jobs {
